@@ -1,5 +1,5 @@
 /* C19: contracts of path_compare_node and path_iterate (igris/util/pathops.h), used by the path_remove_prefix unit through
- * --replace-call-with-contract.  One clause text, two uses (as in contracts/c08_string.h): the POST macros below are what the
+ * --replace-call-with-contract (the *_LIGHT clauses: the full clauses make the caller's formula too large for the back end).  One clause text, two uses (as in contracts/c08_string.h): the POST macros below are what the
  * harness-form units path_compare_node.c / path_iterate.c PROVE for the real code, for strings that start at an arbitrary offset
  * of their object (path_remove_prefix calls both helpers with advanced pointers), and what callers get from the contract.
  *
@@ -58,11 +58,15 @@ size_t g_cmp_i; /* out: index (relative to a and b) at which the comparison stop
      (C19_PEND((a)[g_cmp_i]) ? (r) == (C19_PEND((b)[g_cmp_i]) ? 0 : -1)                                     \
       : C19_PEND((b)[g_cmp_i]) ? (r) == 1                                                                   \
                                : ((a)[g_cmp_i] != (b)[g_cmp_i] && (r) == ((a)[g_cmp_i] < (b)[g_cmp_i] ? -1 : 1))))
+/* what path_remove_prefix needs of it (a consequence of C19_CMP_POST; asserted next to it by the unit path_compare_node):
+ * equal nodes are both empty or both non-empty */
+#define C19_CMP_POST_LIGHT(r, a, b)                                                                         \
+    (((r) == -1 || (r) == 0 || (r) == 1) && C19_IMP((r) == 0, C19_PEND((a)[0]) == C19_PEND((b)[0])))
 #ifndef REPLAY
 static inline int path_compare_node(const char *a, const char *b)
 __CPROVER_requires(C19_PSTR(a) && C19_PSTR(b))
-__CPROVER_assigns(g_cmp_i)
-__CPROVER_ensures(C19_CMP_POST(__CPROVER_return_value, a, b));
+__CPROVER_assigns()
+__CPROVER_ensures(C19_CMP_POST_LIGHT(__CPROVER_return_value, a, b));
 #endif
 
 /* ---------------------------------------------------------------- path_iterate */
@@ -76,11 +80,18 @@ size_t g_it_mid; /* out: absolute offset of the end of the node that is left (a 
       C19_PEND(C19_PBASE(p)[g_it_mid]) &&                                                                   \
       C19_IMP(g_it_mid <= g_it_k && g_it_k < C19_POFF(r), C19_PSKIP(C19_PBASE(p), g_it_k)) &&               \
       !C19_PSKIP((r), 0)))
+/* what path_remove_prefix needs of it (conjuncts of C19_IT_POST; asserted next to it by the unit path_iterate):
+ * NULL exactly for a NULL / empty path, otherwise strict progress inside the string, never stopping on a slash */
+#define C19_IT_POST_LIGHT(r, p)                                                                             \
+    ((p) == NULL ? (r) == NULL : (p)[0] == 0 ? (r) == NULL :                                                \
+     ((r) != NULL && __CPROVER_same_object((r), (p)) && C19_POFF(p) < C19_POFF(r) && C19_POFF(r) <= C19_PTERM(p) && \
+      (r)[0] != '/'))
 #ifndef REPLAY
 static inline const char *path_iterate(const char *path)
 __CPROVER_requires(path == NULL || C19_PSTR(path))
-__CPROVER_assigns(g_it_mid)
-__CPROVER_ensures(C19_IT_POST(__CPROVER_return_value, path));
+__CPROVER_assigns()
+/* old(): the caller assigns the result to the very variable it passes (path = path_iterate(path)) */
+__CPROVER_ensures(C19_IT_POST_LIGHT(__CPROVER_return_value, __CPROVER_old(path)));
 #endif
 
 #endif
